@@ -105,6 +105,10 @@ class C19(Prop):
                     if cname == "brickwall_rcc" and n % 2:
                         continue
                     yield {"k": "shadow", "rows": ins_to_state(m), "r": j % (n + 1), "circ": cname, "seed": sd + 1000 + j, "ns": 4}
+                # circuits of known gates with a history: compiled / sampled / extended / compiled again / copied
+                for hist in HISTS:
+                    yield {"k": "shadowhist", "rows": ins_to_state(m), "r": j % (n + 1), "hist": hist, "seed": sd + 3000 + j, "ns": 2,
+                           "var": j, "pkg": "py"}
 
     def execute(self, scn, be):
         k = scn["k"]
@@ -165,6 +169,8 @@ class C19(Prop):
                 rec["ints"], rec["width"] = scn["ints"], w
                 out = be.utils.binary_repr(ints, scn["width"]) if scn["width"] is not None else be.utils.binary_repr(ints)
                 rec["bits"] = [be.p_ints(row) for row in out]
+            elif k == "shadowhist":
+                return self.shadow_history(scn, be)
             elif k == "shadow":
                 n = len(scn["rows"]) // 2
                 base = be.state(scn["rows"], scn["r"])
@@ -194,4 +200,86 @@ class C19(Prop):
         return [rec]
 
 
+HISTS = ("plain", "compiled", "sampled_extended_recompiled", "compiled_extended_recompiled", "sampled_copy",
+         "sampled_extended_recompiled_copy", "plain_sampled_compiled", "composed_recompiled")
+
+
+def hist_items(n, var):
+    """rotation gates (generator items of the program alphabet): a first part and an extension"""
+    g = lambda qs, letters, ph: {"how": "gen", "k": "gen", "qs": qs, "g": letters + [ph]}
+    first = [g([1], [2], 0), g([1, 2], [3, 1], 2 * (var % 2)), g([n], [1 + var % 3], 0)]
+    ext = [g([2], [1 + (var + 1) % 3], 2), g([1, n], [1, 3], 0)]
+    return first, ext
+
+
+def _shadow_history(self, scn, be):
+    from .. import circ
+    C = be.circuit
+    n = len(scn["rows"]) // 2
+    base = be.state(scn["rows"], scn["r"])
+    base0 = {"rows": scn["rows"], "r": scn["r"]}
+    be.seed(scn["seed"])
+    first, ext = hist_items(n, scn["var"])
+    hist = scn["hist"]
+    out = []
+    state = {"items": [], "c": C.CliffordCircuit(n)}
+
+    def take(items):
+        for j, it in enumerate(items):
+            state["c"].take(circ.make_gate(be, it, n, 2 * (len(state["items"]) + scn["var"]) + (j % 2)))
+            state["items"].append(it)
+
+    def snaps(tag):
+        log = []
+        sh = be.device.ClassicalShadow(base, ProxyCircuit(state["c"], be, log))
+        got = [be.p_state(s) for s in sh.snapshots(scn["ns"])]
+        after = be.p_state(base)
+        for pv, sn in zip(log, got):
+            out.append({"op": "shadow", "circ": "hist:%s:%s" % (hist, tag), "prog": [circ.wire_item(it) for it in state["items"]],
+                        "base": base0, "base1": after, "povm": pv, "snap": sn})
+        if len(got) != scn["ns"] or len(log) != scn["ns"]:
+            out.append({"op": "shadow", "exc": "SnapshotCount"})
+
+    try:
+        take(first)
+        if hist == "plain":
+            snaps("a")
+        elif hist == "compiled":
+            state["c"].compile()
+            snaps("a")
+        elif hist == "plain_sampled_compiled":
+            snaps("a")
+            state["c"].compile()
+            snaps("b")
+        elif hist in ("sampled_extended_recompiled", "compiled_extended_recompiled", "sampled_extended_recompiled_copy"):
+            state["c"].compile()
+            if hist != "compiled_extended_recompiled":
+                snaps("a")
+            take(ext)
+            state["c"].compile()
+            if hist.endswith("_copy"):
+                state["c"] = state["c"].copy()
+            snaps("b")
+        elif hist == "sampled_copy":
+            state["c"].compile()
+            snaps("a")
+            state["c"] = state["c"].copy()
+            snaps("b")
+        elif hist == "composed_recompiled":
+            state["c"].compile()
+            snaps("a")
+            other = C.CliffordCircuit(n)
+            keep, state["c"] = state["c"], other
+            n0 = len(state["items"])
+            take(ext)
+            other.compile()
+            state["c"] = keep.compose(other)
+            state["c"].compile()
+            snaps("b")
+    except Exception as e:
+        out.append({"op": "shadow", "circ": "hist:%s" % hist, "exc": _exc(e)})
+    return out
+
+
+C19.shadow_history = _shadow_history
 PROP = C19
